@@ -143,7 +143,7 @@ func alphabet(rf *refForest) alpha {
 			a.hashes = append(a.hashes, h)
 		}
 	}
-	a.hashes = append(a.hashes, empty, u.Hash{0xfe, 0xed})
+	a.hashes = append(a.hashes, empty, u.Hash{0xfe, 0xed}, degenerateHashes()[1])
 	// near misses: true hashes with one bit flipped at the end / at the start (a comparison on a prefix
 	// or a suffix of the hash must not pass for the whole hash)
 	for _, t := range rf.trees() {
@@ -274,7 +274,7 @@ func mutateHonest(e *emitter, rng *rand.Rand, blocks []hblock, rows []uint8, n i
 		hashes := append([]u.Hash{}, req...)
 		targets := append([]uint64{}, proof.Targets...)
 		pf := append([]u.Hash{}, proof.Proof...)
-		kind := rng.Intn(13)
+		kind := rng.Intn(14)
 		name := ""
 		switch kind {
 		case 0:
@@ -359,6 +359,29 @@ func mutateHonest(e *emitter, rng *rand.Rand, blocks []hblock, rows []uint8, n i
 					pf = append(pf, nodes[nodes[p].sib].hash)
 					p = nodes[p].parent
 				}
+			}
+		case 13: // the hash of an ancestor claimed at a leaf position; the proof hashes in between replaced by
+			// a "degenerate" non-zero hash that a sloppy emptiness test could take for the all-zero one
+			name = "lifted-claim"
+			t := leafPos[req[0]]
+			var path []u.Hash
+			p := t
+			var anc []uint64
+			for !nodes[p].isRoot {
+				path = append(path, nodes[nodes[p].sib].hash)
+				p = nodes[p].parent
+				anc = append(anc, p)
+			}
+			if len(anc) > 0 {
+				lift := 1 + rng.Intn(len(anc))
+				filler := degenerateHashes()[rng.Intn(len(degenerateHashes()))]
+				hashes = []u.Hash{nodes[anc[lift-1]].hash}
+				targets = []uint64{t}
+				pf = nil
+				for x := 0; x < lift; x++ {
+					pf = append(pf, filler)
+				}
+				pf = append(pf, path[lift:]...)
 			}
 		}
 		e.count("mut_" + name)
@@ -705,4 +728,20 @@ func init() {
 	generators["C03"] = genC03
 	generators["C04"] = genC04
 	generators["C05"] = genC05
+}
+
+// degenerateHashes: non-zero hashes with a structure that a sloppy "is this the empty hash" test (word-wise XOR
+// fold, prefix comparison, single-byte test) could mistake for the all-zero hash.
+func degenerateHashes() []u.Hash {
+	var d1, d2, d3, d4, d5 u.Hash
+	d1[0], d1[8] = 1, 1
+	for i := range d2 {
+		d2[i] = 1
+	}
+	for i := 12; i < 32; i++ {
+		d3[i] = byte(i)
+	}
+	d4[31] = 1
+	d5[0] = 1
+	return []u.Hash{empty, d1, d2, d3, d4, d5}
 }
